@@ -21,7 +21,10 @@ REPO = os.environ.get('OTEL_REPO', '/repo')
 EXTRACTOR = os.path.join(VERIF, 'tools', 'otel-ir', 'otel-ir')
 CACHE = os.path.join(VERIF, '.cache')
 SRC_DIRS = ['api', 'sdk', 'exporters', 'ext']
-BASE_FLAGS = ['-std=gnu++17', '-UNDEBUG', '-w', '-ferror-limit=0']
+# The configured build uses g++ 12, which has no __has_feature: there OPENTELEMETRY_HAVE_FEATURE(f) is 0
+# (api/include/opentelemetry/common/macros.h).  clang would answer 1 for many features and so parse a different
+# preprocessor variant than the one that is built and tested; the macro is pinned to what g++ 12 computes.
+BASE_FLAGS = ['-std=gnu++17', '-UNDEBUG', '-w', '-ferror-limit=0', '-DOPENTELEMETRY_HAVE_FEATURE(f)=0']
 FALLBACK_FLAGS = ['-DOPENTELEMETRY_ABI_VERSION_NO=1', '-I%s/api/include' % REPO, '-I%s/sdk/include' % REPO,
                   '-I%s/sdk' % REPO, '-I%s/ext/include' % REPO]
 EXTRA_INC = ['-I%s/exporters/ostream/include' % REPO, '-I%s/exporters/memory/include' % REPO,
